@@ -133,7 +133,8 @@ class Ctx:
         with open(os.path.join(OUT, "evidence", self.pid + ".json"), "w") as f:
             json.dump(ev, f, indent=1, default=str)
             f.write("\n")
-        shutil.rmtree(self.tmp, ignore_errors=True)
+        if not os.environ.get("VERIF_KEEP_TMP"):
+            shutil.rmtree(self.tmp, ignore_errors=True)
         print("%s %s: %d violation(s), %d known finding class(es), %d impl cases, %.0fs" % (
             self.pid, self.tier, len(self.violations), len(self.known_hit),
             cov["traces_validated_against_impl"], wall))
